@@ -45,6 +45,26 @@ Theorem C15_forward_closure_single_pass : forall strict t i s0,
 Proof. exact forward_closure_single_pass. Qed.
 Print Assumptions C15_forward_closure_single_pass.
 
+(* clone() yields an independent test case: its registry is rebuilt from its own statements (not
+   shared with the original's), operations on the clone leave the original unchanged and vice
+   versa (the model treats test cases as values; the harness checks on the real objects that a
+   call on one test case changes no other live test case), and both stay well-formed. *)
+Theorem C15_clone_registry_independent : forall t, reg (clone t) = rebuild (stmts t).
+Proof. exact clone_registry_independent. Qed.
+Print Assumptions C15_clone_registry_independent.
+
+Theorem C15_clone_independent : forall t ops,
+  fst (run_on_clone (clone_pair t) ops) = t /\ snd (run_on_clone (clone_pair t) ops) = run (clone t) ops
+  /\ snd (run_on_orig (clone_pair t) ops) = clone t.
+Proof. exact clone_independent. Qed.
+Print Assumptions C15_clone_independent.
+
+Theorem C15_clone_pair_WF : forall t ops1 ops2,
+  WF t -> ops_okb t ops1 = true -> ops_okb (clone t) ops2 = true ->
+  WF (run t ops1) /\ WF (run (clone t) ops2).
+Proof. exact clone_pair_WF. Qed.
+Print Assumptions C15_clone_pair_WF.
+
 (* Crossover (splice_test_case_chromosomes), for every pair of split points and every outcome of
    the random choices: the offspring is well-formed, and it is either shorter than the configured
    maximum or the parent is kept unchanged. *)
